@@ -11,21 +11,21 @@ import (
 
 // Obligation is one named proof goal: prefix of the script + reach + goal.
 type Obligation struct {
-	Name    string
-	Kind    string // post, pre, inv-entry, inv-preserve, safety, frame, assert, cover
-	Func    string
-	Prefix  int    // number of script lines that form the context
-	Reach   string // path condition
-	Goal    string // formula to prove under reach
-	Cover   bool   // if true, the query (reach) must be SAT
-	Src     string // source of the clause
-	Pos     string
-	Side    bool // safety side condition (not a property obligation)
+	Name   string
+	Kind   string // post, pre, inv-entry, inv-preserve, safety, frame, assert, cover
+	Func   string
+	Prefix int    // number of script lines that form the context
+	Reach  string // path condition
+	Goal   string // formula to prove under reach
+	Cover  bool   // if true, the query (reach) must be SAT
+	Src    string // source of the clause
+	Pos    string
+	Side   bool // safety side condition (not a property obligation)
 }
 
 // State is the symbolic heap at a program point.
 type State struct {
-	heaps map[string]Term // heap key -> array term; missing = entry heap
+	heaps  map[string]Term // heap key -> array term; missing = entry heap
 	defers []deferred
 }
 
@@ -48,32 +48,32 @@ func (s *State) clone() *State {
 
 // Gen generates verification conditions for one top-level function.
 type Gen struct {
-	W        *World
-	sc       *Script
-	obls     []*Obligation
-	fnName   string
-	structs  map[string]string // type string -> datatype name
-	structTy map[string]*types.Struct
-	tags     map[string]int
-	tagTypes []types.Type
-	strLits  map[string]Term
-	heapDecl map[string]bool
-	allocN   int
-	curBase  string
-	errs     []string
-	tparams  map[string]bool
-	absDecl  map[string]bool
-	axiomsIn bool
-	depth    int
+	W           *World
+	sc          *Script
+	obls        []*Obligation
+	fnName      string
+	structs     map[string]string // type string -> datatype name
+	structTy    map[string]*types.Struct
+	tags        map[string]int
+	tagTypes    []types.Type
+	strLits     map[string]Term
+	heapDecl    map[string]bool
+	allocN      int
+	curBase     string
+	errs        []string
+	tparams     map[string]bool
+	absDecl     map[string]bool
+	axiomsIn    bool
+	depth       int
 	usedAssumed map[string]bool // external/assumed contracts used
-	inlined  map[string]bool
-	ghostSort map[string]string
-	dry      int
-	wlog     *writeLog
-	closures map[string]*closureVal
-	usedProved map[string]bool
-	inlineN  int
-	goStmts  []string
+	inlined     map[string]bool
+	ghostSort   map[string]string
+	dry         int
+	wlog        *writeLog
+	closures    map[string]*closureVal
+	usedProved  map[string]bool
+	inlineN     int
+	goStmts     []string
 }
 
 func NewGen(w *World, fnName string) *Gen {
